@@ -25,8 +25,16 @@ func histReplay(wit json.RawMessage, prop string) []core.Violation {
 		Scenario histParams `json:"scenario"`
 	}
 	json.Unmarshal(wit, &x)
+	if os.Getenv("VERIF_TRACE") != "" {
+		traceOn = true
+	}
 	r := runHist(x.Scenario, x.Hist, x.Scenario.Drain)
 	defer r.w.Close()
+	if traceOn {
+		for _, l := range r.w.trace {
+			println(l)
+		}
+	}
 	return r.w.viol
 }
 
